@@ -13,17 +13,23 @@
 struct kv { char *k; char *v; };
 struct env { struct kv *kv; int n; };
 
+static unsigned int hexval(char c) {
+	if (c >= '0' && c <= '9') return (unsigned int)(c - '0');
+	if (c >= 'a' && c <= 'f') return (unsigned int)(c - 'a' + 10);
+	if (c >= 'A' && c <= 'F') return (unsigned int)(c - 'A' + 10);
+	return 0;
+}
+
 static char *unhex(const char *h) {
 	size_t n;
 	char *out;
 	if (strcmp(h, "-") == 0) return strdup("");
 	n = strlen(h) / 2;
 	out = malloc(n + 1);
-	for (size_t i = 0; i < n; i++) {
-		unsigned int b;
-		sscanf(h + 2 * i, "%2x", &b);
-		out[i] = (char)b;
-	}
+	/* decoded by hand: sscanf on the rest of a long string is linear per call
+	 * (values of 64 KiB and more made the harness itself quadratic) */
+	for (size_t i = 0; i < n; i++)
+		out[i] = (char)((hexval(h[2 * i]) << 4) | hexval(h[2 * i + 1]));
 	out[n] = 0;
 	return out;
 }
